@@ -21,6 +21,11 @@ type VerifPoolEvent struct {
 	Ptr  uintptr
 }
 
+var verifPoolMu sync.RWMutex
+
+func verifPoolEnter() { verifPoolMu.RLock() }
+func verifPoolExit()  { verifPoolMu.RUnlock() }
+
 var verifMu sync.Mutex
 var verifParked = map[uintptr][]int{} // arrays currently parked in intsPool (kept alive, so addresses are never reused)
 var verifEvents []VerifPoolEvent
@@ -55,10 +60,14 @@ drainHdr:
 			break drainHdr
 		}
 	}
+	// finalizers of iterators run on the runtime's own goroutine and hand ints back at any time: the pools
+	// are only replaced while nobody is inside Get/Put (verifPoolEnter/verifPoolExit in perf.go)
+	verifPoolMu.Lock()
 	for i := range intsPool {
 		size := i
 		intsPool[i] = sync.Pool{New: func() interface{} { return make([]int, size) }}
 	}
+	verifPoolMu.Unlock()
 	optPool = &sync.Pool{New: func() interface{} { return new(OpOpt) }}
 	// the per-size pools of scalar buffers are created on first use: forget them, so that
 	// every case starts as cold as a fresh process
